@@ -1,11 +1,11 @@
 SPECIFICATION Spec
 CONSTANTS
-  P = 1188
-  MsgLens <- LensQ
+  P = 2
+  MsgLens <- LensWrapOver
   Expiry = 1
   MaxTicks = 2
   MaxBad = 1
-  MaxSegIdx = 65535
+  MaxSegIdx = 3
   SlotWrap = FALSE
   GenCanon = FALSE
 VIEW StView
